@@ -331,11 +331,12 @@ pub fn bad_add(dec: bool, c: Cfg, acc: &Accepted, variant: u8, raw: u16, seed: u
             }
             5 => match acc.originals.iter().nth(raw as usize % acc.originals.len().max(1)) {
                 Some(&i) => vec![Call::AddO(i, shard_bytes(seed, false, i, c.b))],
-                None => vec![Call::AddO(c.k, shard_bytes(seed, false, 0, c.b))],
+                // nothing accepted yet: add one shard, then the same index again with other bytes
+                None => vec![Call::AddO(0, shard_bytes(seed, false, 0, c.b)), Call::AddO(0, shard_bytes(seed ^ 0xD0B1, false, 0, c.b))],
             },
             _ => match acc.recovery.iter().nth(raw as usize % acc.recovery.len().max(1)) {
                 Some(&i) => vec![Call::AddR(i, shard_bytes(seed, true, i, c.b))],
-                None => vec![Call::AddR(c.r, shard_bytes(seed, true, 0, c.b))],
+                None => vec![Call::AddR(0, shard_bytes(seed, true, 0, c.b)), Call::AddR(0, shard_bytes(seed ^ 0xD0B1, true, 0, c.b))],
             },
         }
     } else {
